@@ -88,6 +88,7 @@ let model = function
         | Ok res when kind = "parsel" -> obs_result res ^ typed_field res
         | _ when kind = "hist" -> obs_res r ^ " # " ^ obs_res (snd (parse d e (init_st d) (strs_of_wire aw)))
         | _ -> obs_res r) rs argvs)
+  | ["ctor"; tok] -> if well_formed (str_of_hex tok) then "CTOR-OK" else "USER"
   | "steps" :: dw :: ew :: steps when steps <> [] ->
     (* a:<argv> parse (long-lived object # fresh parser) | e:<env> | d:<decl>: every call starts with prepare(), so the
        object state carried between the steps is irrelevant (C14_history_independent); the model threads it anyway where the
@@ -153,6 +154,7 @@ let oracle case obs =
                                               | Err _ -> o = expect)
         | "C14" -> (match fresh with Some f -> o = f | None -> o = expect)
         | _ -> o = expect) argvs obss
+  | ["ctor"; tok] -> obs = (if well_formed (str_of_hex tok) then "CTOR-OK" else "USER")
   | "steps" :: dw :: ew :: steps when steps <> [] ->
     let d = ref (parse_decl dw) and e = ref (parse_env ew) in
     let obss = ref (split_obs obs) in
